@@ -255,6 +255,7 @@ class Repo:
     # models): equivalent spellings are brought to one form first
     NORMALISE = {
         'biom/table.py': {'Table.to_hdf5', 'Table.from_hdf5',
+                          'Table._index_ids',
                           'general_parser', 'vlen_list_of_str_parser',
                           'general_formatter', 'vlen_list_of_str_formatter'},
         'biom/cli/table_validator.py': {'TableValidator._validate_hdf5',
